@@ -631,6 +631,10 @@ def length(ex, v, st):
         v = Val(ty.elem, ty.val(v.term)); ty = v.ty
     if isinstance(ty, TList):
         return Val(TInt, ty.len(v.term))
+    if ty == TStr:
+        f = z3.Function('str!len', C.StrSort, z3.IntSort())
+        st.assume(f(v.term) >= 0)
+        return Val(TInt, f(v.term))
     if isinstance(ty, TMap):
         for a in C.map_size_axioms(v):
             st.assume(a)
